@@ -1,5 +1,123 @@
-(* STUB: Impl model of rqsc.rs -- to be written *)
-From Coq Require Import NArith List.
-From ACPI Require Import Lib.Bytes Lib.Sx Lib.Machine Impl.Checksum Impl.Table Impl.Fields Impl.Run.
+(* Impl model of rqsc.rs (uses gas.rs).  Case vocabulary: see Spec/RqscS.v.
+   The RQSC is NOT an instance of Impl/Table.v: it keeps no running checksum.  `update_header` adds the controller's
+   stored length to header.length and recomputes header.checksum from scratch by serialising the whole table
+   (with the checksum byte zeroed) into a fresh Checksum. *)
+From Coq Require Import NArith List Bool.
+From ACPI Require Import Lib.Bytes Lib.Sx Lib.Machine Impl.Checksum Impl.Table Impl.Fields Impl.Run Impl.Madt Impl.Gas.
 Import ListNotations.
-Definition rqsc_case (md : mode) (c : sx) : list ev := [EvPanic].
+Open Scope N_scope.
+
+(* ---- ResourceID: the type byte and what follows it (`as_bytes` of the packed payload struct, or the caller's Vec) ---- *)
+Record resid := { ri_type : N; ri_payload : list N }.
+
+Definition resid_of_sx (s : sx) : option resid :=
+  match s with
+  | SL [SA 0; SA cache_id] =>                   (* Cache(CacheResource::new(cache_id)): U32, U32 reserved, U32 reserved *)
+      Some {| ri_type := 0; ri_payload := d4 cache_id ++ d4 0 ++ d4 0 |}
+  | SL [SA 1; SA prox; SA bw] =>                (* MemoryAffinityStructure(new(proximity_domain, raw_bandwidth_per_block)) *)
+      Some {| ri_type := 1; ri_payload := d4 prox ++ d4 0 ++ d4 0 ++ q8 bw |}
+  | SL [SA 2; SA hid; SA uid] =>                (* ACPIDevice(new(acpi_hardware_id, acpi_unique_id)) *)
+      Some {| ri_type := 2; ri_payload := q8 hid ++ d4 uid |}
+  | SL [SA 3; SA bdf] =>                        (* PCIDevice(new(bdf)) *)
+      Some {| ri_type := 3; ri_payload := d4 bdf ++ d4 0 ++ d4 0 |}
+  | SL [SA 4; SA ty; b] =>                      (* VendorSpecific(ty, bytes) *)
+      do bs <- sx_bytes b; Some {| ri_type := cast U8 ty; ri_payload := map (cast U8) bs |}
+  | _ => None
+  end.
+
+(* ResourceID::len() = size_of::<u8>() + payload size *)
+Definition resid_len (r : resid) : N := 1 + N.of_nat (length (ri_payload r)).
+
+(* ---- ResourceStructure ---- *)
+Record resource := { rs_type : N; rs_length : N; rs_flags : N; rs_id : resid }.
+
+(* new: length = size_of::<u8>() * 3 + size_of::<u16>() * 2 + resource_id.len(); assert!(length <= u16::MAX); length as u16 *)
+Definition resource_new (rtype flags : N) (id : resid) : option resource :=
+  let length := 1 * 3 + 2 * 2 + resid_len id in
+  do _ <- assert (length <=? 65535);
+  Some {| rs_type := rtype; rs_length := cast U16 length; rs_flags := flags; rs_id := id |}.
+
+(* to_aml_bytes: byte type, byte 0, word length, word flags, byte 0, then ResourceID: byte id type, payload *)
+Definition ser_resource (r : resource) : list N :=
+  b1 (rs_type r) ++ b1 0 ++ w2 (rs_length r) ++ w2 (rs_flags r) ++ b1 0 ++ b1 (ri_type (rs_id r)) ++ ri_payload (rs_id r).
+
+(* ---- QoSController ---- *)
+Record qosc := {
+  q_type : N; q_length : N; q_gas : flds; q_rcid : N; q_mcid : N; q_flags : N; q_nres : N;
+  q_rres : list resource         (* resource_structure, most recent first *)
+}.
+
+Definition qos_new (ctype : N) (gas : flds) (rcid mcid flags : N) : qosc :=
+  {| q_type := ctype; q_length := 28; q_gas := gas; q_rcid := rcid; q_mcid := mcid; q_flags := flags; q_nres := 0; q_rres := [] |}.
+
+(* add_resource: number_of_resources.checked_add(1).expect(..); length.checked_add(resource.len() as u16).expect(..); push *)
+Definition qos_add_resource (q : qosc) (r : resource) : option qosc :=
+  do n <- add_c U16 (q_nres q) 1;
+  do len <- add_c U16 (q_length q) (cast U16 (rs_length r));
+  Some {| q_type := q_type q; q_length := len; q_gas := q_gas q; q_rcid := q_rcid q; q_mcid := q_mcid q; q_flags := q_flags q;
+          q_nres := n; q_rres := r :: q_rres q |}.
+
+(* to_aml_bytes: byte type, byte 0, word length, GAS, dword rcid, dword mcid, word flags, word count, resources *)
+Definition ser_qos (q : qosc) : list N :=
+  b1 (q_type q) ++ b1 0 ++ w2 (q_length q) ++ ser_flds (q_gas q) ++ d4 (q_rcid q) ++ d4 (q_mcid q) ++ w2 (q_flags q)
+  ++ w2 (q_nres q) ++ concat (map ser_resource (frev (q_rres q))).
+
+(* (rtype rflags resource-id): ResourceStructure::new(rtype, rflags, id), then controller.add_resource(it) *)
+Definition resource_of_sx (s : sx) : option resource :=
+  match s with
+  | SL [SA rtype; SA rflags; id] => do i <- resid_of_sx id; resource_new rtype rflags i
+  | _ => None
+  end.
+
+Fixpoint qos_add_all (q : qosc) (l : list sx) : option qosc :=
+  match l with
+  | [] => Some q
+  | x :: r => do rs <- resource_of_sx x; do q' <- qos_add_resource q rs; qos_add_all q' r
+  end.
+
+Definition qos_of_sx (o : sx) : option qosc :=
+  match o with
+  | SL [SA 1; SA ctype; g; SA rcid; SA mcid; SA flags; SL res] =>
+      do gv <- gas_of_sx g; qos_add_all (qos_new ctype gv rcid mcid flags) res
+  | _ => None
+  end.
+
+(* ---- the table ---- *)
+Record rqsc := {
+  r_hdr : hdr;
+  r_len : N;                 (* header.length *)
+  r_hck : N;                 (* header.checksum *)
+  r_rcs : list qosc          (* structures, most recent first *)
+}.
+
+(* to_aml_bytes with the given checksum byte: header bytes, dword structures.len(), controllers *)
+Definition rqsc_bytes (h : hdr) (len cks : N) (rcs : list qosc) : list N :=
+  hdr_bytes h len cks ++ d4 (N.of_nat (length rcs)) ++ concat (map ser_qos (frev rcs)).
+
+Definition rqsc_image (s : rqsc) : list N := rqsc_bytes (r_hdr s) (r_len s) (r_hck s) (r_rcs s).
+
+(* new: length = 36 + 4; checksum over the header bytes alone *)
+Definition rqsc_new (c : sx) : option rqsc :=
+  match c with
+  | SL [o; t; r] =>
+      do h <- sx_hdr [82; 81; 83; 67] 1 o t r;          (* "RQSC", revision 1 *)
+      let len := 36 + 4 in
+      Some {| r_hdr := h; r_len := len; r_hck := ck_value (ck_append 0 (hdr_bytes h len 0)); r_rcs := [] |}
+  | _ => None
+  end.
+
+(* add_controller(q): len = q.len() (= q.length as usize); push; update_header(len):
+     new_len = (len as u32) + old_len; checksum = 0; fresh Checksum fed by to_aml_bytes; checksum = value() *)
+Definition rqsc_add (md : mode) (s : rqsc) (q : qosc) : option rqsc :=
+  let rcs := q :: r_rcs s in
+  do new_len <- add_m md U32 (cast U32 (q_length q)) (r_len s);
+  let ck := ck_sink_vec 0 (rqsc_bytes (r_hdr s) new_len 0 rcs) in
+  Some {| r_hdr := r_hdr s; r_len := new_len; r_hck := ck_value ck; r_rcs := rcs |}.
+
+Definition rqsc_step (md : mode) (s : rqsc) (o : sx) : option (rqsc * list ev) :=
+  do q <- qos_of_sx o;
+  do s' <- rqsc_add md s q;
+  Some (s', [EvNum 0]).
+
+Definition rqsc_case (md : mode) (c : sx) : list ev :=
+  run_history (fun s => Some (rqsc_image s)) (rqsc_step md) rqsc_new c.
